@@ -11,6 +11,7 @@
 #include "vf.hpp"
 #include "ref.hpp"
 extern "C" { __float128 sqrtq(__float128); __float128 sinq(__float128); __float128 cosq(__float128); __float128 atan2q(__float128,__float128); __float128 atanq(__float128); }   // libquadmath (no header: clang has none)
+#include <cstring>
 #include <glm/glm.hpp>
 #include <glm/gtc/quaternion.hpp>
 #include <glm/gtc/type_ptr.hpp>
@@ -312,7 +313,11 @@ template<class T> static void k_twovec(const InQ<T>& in,vf::Ctx& c){ TRT
 	W eps=2*u; glm::vec<3,T> gu(in.v[0],in.v[1],in.v[2]), gv(in.p[0],in.p[1],in.p[2]);
 	bool anti= in.p[0]==-in.v[0]&&in.p[1]==-in.v[1]&&in.p[2]==-in.v[2];
 	c.cls(anti? "exactly-antiparallel": ch<W(1e-3)? "nearly-antiparallel": (sh<W(1e-3)? "nearly-parallel":"regular"));
-	for(int var=0;var<2;var++){ const char* nm= var? "rotation(u,v)":"qua(u,v)"; T o[4]; getq(var? glm::rotation(gu,gv): glm::qua<T>(gu,gv),o);
+	// third variant: qua(2^k1*u, 2^k2*v). The constructor divides by |u||v| itself (norm_u_norm_v), power-of-two scaling is exact, so the
+	// same bounds apply; k1,k2 in [-12,12] taken from the input bits (|u||v| from 2^-24 to 2^24).
+	unsigned hb=0; { T t0=in.v[0]+in.p[1]; unsigned char bb[sizeof(T)]; std::memcpy(bb,&t0,sizeof(T)); for(unsigned i=0;i<sizeof(T);i++) hb=hb*131u+bb[i]; }
+	int k1=int(hb%25u)-12, k2=int((hb/25u)%25u)-12; T s1=std::ldexp(T(1),k1), s2=std::ldexp(T(1),k2);
+	for(int vv=0;vv<3;vv++){ const int var= vv==1; const char* nm= vv==1? "rotation(u,v)": vv? "qua(2^k1*u,2^k2*v)":"qua(u,v)"; T o[4]; getq(vv==1? glm::rotation(gu,gv): vv? glm::qua<T>(gu*s1,gv*s2): glm::qua<T>(gu,gv),o);
 		dig(c,o,4);
 		if(!fin(o,4)){ c.fail(std::string(nm)+":non-finite-result",sv<T>(o,4),"finite"); continue; }
 		W g[4]; widen(o,g,4); W gn=w_sqrt(n2w(g,4));
